@@ -146,7 +146,8 @@ def rule_decision(rep):
             def eff(st, it):
                 return NotImplemented
 
-            it = Interp(atom, eff, on_loop=on_loop, raises=rz, watch={"create_table", "load_table", "save_table"})
+            it = Interp(atom, eff, on_loop=on_loop, raises=rz, watch={"create_table", "load_table", "save_table"},
+                        local_mutations_ok=True)
             ex = it.run(f.body)
             return list(it.effects), ex
 
@@ -406,6 +407,29 @@ def rule_stale_domain(rep):
             "_custom_error_hints:pge",
             "the .pgec validity test no longer looks at the .pge file's mtime",
             node=t,
+        )
+        # the hint cache's keys survive the round trip: writer and reader are an inverse pair
+        t2 = unparse(f.node)
+        w = re.search(r"serializable = \{(.+?): v for k, v in compiled_hints\.items\(\)\}", t2)
+        rd = re.search(r"compiled_hints = \{(.+?): v for k, v in loaded\.items\(\)\}", t2)
+        pair = (w.group(1) if w else None, rd.group(1) if rd else None)
+        inverse = {("str(k)", "ast.literal_eval(k)"), ("repr(k)", "ast.literal_eval(k)")}
+        r.check(
+            pair in inverse,
+            "hint keys: writer and reader are an inverse pair (str/repr <-> ast.literal_eval)",
+            "_custom_error_hints:key-codec",
+            f"hint-cache keys are written as `{pair[0]}` and read back as `{pair[1]}`: not a known inverse pair -- a key "
+            "(state, lookahead names...) whose names contain the separator / quotes does not survive the round "
+            "trip, so the second parser construction finds other hints than the first",
+            node=f.node,
+        )
+        hk = repo.func("parglare.parser.hint_key")
+        r.check(
+            "return (state,) + tuple(lookaheads)" in unparse(hk.node) and "sorted([t.symbol.name for t in tokens_ahead])" in unparse(hk.node),
+            "hint key = (state, sorted lookahead names...)",
+            "hint_key",
+            "hint_key changed",
+            node=hk.node,
         )
         # registry is filled for every PGFile with a path
         pg = repo.func("parglare.grammar.PGFile.__init__")
